@@ -17,8 +17,8 @@ _G = {}
 def channels_for(bar):
     """The model's barOn is a consequence of the channel choice in main.go: file input and --outputFile."""
     if bar:
-        return [("file", "file"), ("gz", "file")]
-    return [("file", "stdout"), ("gz", "stdout"), ("stdin", "stdout"), ("stdin", "file")]
+        return [("file", "file"), ("gz", "file"), ("gzmulti", "file")]
+    return [("file", "stdout"), ("gz", "stdout"), ("stdin", "stdout"), ("stdin", "file"), ("gzmulti", "stdout")]
 
 
 def work(args):
@@ -62,7 +62,7 @@ def work(args):
                 combos = channels_for(rec["bar"])
                 les = (False, True)
                 if cfg.name != "plain":
-                    combos, les = combos[:2], (False,)
+                    combos, les = combos[:2] + combos[-1:], (False,)
                 for crlf in les:
                     data = sl.file_bytes(lines, rec["finalNL"], crlf)
                     for (ic, oc) in combos:
@@ -125,6 +125,47 @@ def work(args):
     return res
 
 
+def volume(b, v, tier):
+    """Long logs (thousands of lines, a few hundred distinct texts, lines just below the scanner limit, many blank / junk lines in a
+    row) over the channel combinations: buffering, flushing and progress accounting at scale."""
+    wd = tempfile.mkdtemp(prefix="c06vol-", dir=b.root)
+    pool = sl.Pool(v.seed)
+    rng = random.Random(v.seed * 31 + 7)
+    kinds = ["cmd"] * 6 + ["oth"] * 3 + ["padded", "blank", "blank", "ws", "txt", "legacy", "arr", "scalar", "trunc", "trail"]
+    distinct = []
+    for i in range(260):
+        k = rng.choice(kinds)
+        distinct.append((k, pool.line(k, rng.randrange(64), 3000000 + i), 3000000 + i))
+    # object lines just below the 64 KiB scanner limit
+    for j, pad in enumerate((60000, 65000, 65300)):
+        base = pool.obj_line("cmd", j, 3100000 + j)
+        room = pad - len(base.encode("utf-8"))
+        distinct.append(("cmd", base[:-1] + ',"pad":"' + "p" * max(1, room) + '"}', 3100000 + j))
+    cfgs = sl.stream_cfgs("basic")
+    singles = sl.Singles(b, wd)
+    n = 0
+    nlines = 3000 if tier == "quick" else 40000
+    seq = [rng.choice(distinct) for _ in range(nlines)] + [("blank", "", 0)] * 50 + [rng.choice(distinct) for _ in range(200)]
+    for cfg in cfgs:
+        singles.need(cfg, [t for k, t, _ in distinct if k in sl.OBJ_KINDS])
+        exp = b"".join(singles.get(cfg, t)["out"] for k, t, _ in seq if k in sl.OBJ_KINDS)
+        for crlf, final_nl in ((False, True), (True, False)):
+            data = sl.file_bytes(seq, final_nl, crlf)
+            for ic, oc in (("file", "stdout"), ("gz", "file"), ("stdin", "stdout"), ("file", "file"), ("stdin", "file"), ("gzmulti", "stdout")):
+                r = sl.cli_channel_run(b, data, cfg, ic, oc, wd, "vol", timeout=600, prefill=b"x" * (len(exp) + 5000) if oc == "file" else None)
+                n += 1
+                v.count()
+                if r["rc"] != 0 or r["out"] != exp:
+                    got = r["out"] or b""
+                    k = next((i for i in range(min(len(got), len(exp))) if got[i] != exp[i]), min(len(got), len(exp)))
+                    v.violation("a long log is not processed as the line-by-line map (in=%s out=%s %s, %d lines) cfg=%s" % (ic, oc, "CRLF" if crlf else "LF", len(seq), cfg.name),
+                                {"flags": cfg.flags, "exit": r["rc"], "expected_bytes": len(exp), "actual_bytes": len(got), "first_difference_at_byte": k,
+                                 "expected_there": exp[max(0, k - 80):k + 120].decode("utf-8", "replace"), "actual_there": got[max(0, k - 80):k + 120].decode("utf-8", "replace"),
+                                 "stderr": r["stderr"][:300]})
+    shutil.rmtree(wd, ignore_errors=True)
+    return n
+
+
 def run(tier):
     v = common.Verdict(PID, tier, "model_checking")
     b = common.build()
@@ -176,6 +217,7 @@ def run(tier):
         for ev, how, ci in r["traces"]:
             traces.append(ev)
             owners.append(how)
+    nvol = volume(b, v, tier)
     # trace validation: real executions must be behaviours of Stream
     acc, rej, tstates = sl.validate_traces(traces)
     for ti, ei, ev, why in rej:
@@ -183,7 +225,7 @@ def run(tier):
         v.spec_drift({"trace": owners[ti], "rejected_at_event": ei, "event": ev, "init": traces[ti][0]})
     v.cov.update({"states": states + tstates, "transitions": trans, "traces_validated_against_impl": acc, "traces_rejected": len(rej),
                   "exhaustive": True, "model_terminal_states_replayed": len(allrecs), "line_kinds": list(kinds), "max_len_exhaustive": maxlen,
-                  "simulated_longer_sequences": len(extra), "distinct_concrete_lines_run_alone": ntexts,
+                  "simulated_longer_sequences": len(extra), "volume_runs": nvol, "distinct_concrete_lines_run_alone": ntexts,
                   "flag_sets": [c.flags for c in _G["cfgs"]],
                   "rule": "TLC: all sequences over the line kinds up to the bound x final newline x bar; replay: each through the real CLI (file/gz/stdin x stdout/-o x "
                           "LF/CRLF; a 7th of the runs repeated) and in-process (read chunks of 1 byte, 7 bytes, unlimited; plain and gzip); expected bytes = "
